@@ -4,7 +4,7 @@ from __future__ import annotations
 import ast
 
 from .common import site_of
-from .flow import (code_nodes, own, facts_imply_nonempty, helpers_of, both_answers, Oblig, calls, events, deps_of, arg_deps, SELF, P, facts_on_path, has_fact, check_escapes)
+from .flow import (fold_consts, code_nodes, own, facts_imply_nonempty, helpers_of, both_answers, Oblig, calls, events, deps_of, arg_deps, SELF, P, facts_on_path, has_fact, check_escapes)
 
 LL = "pyformlang.cfg.llone_parser.LLOneParser"
 EXPLANATION = (
@@ -227,7 +227,8 @@ def run(eng, rep, tier):
     ob.decide("R1", "C14.4", fs, "follow-of-start-has-end-marker",
               any(ev.kind == "write" and ev.value is not None and ev.value.elem is not None and ev.value.elem.has_const()
                   and ev.value.elem.const == "$" for ev, _ in sf.walk()) or
-              any(isinstance(c, ast.Constant) and c.value == "$" for c in ast.walk(prog.method("LLOneParser", "_initialize_follow_set").node)),
+              any(isinstance(c, ast.Constant) and c.value == "$"
+                  for fn_ in code_nodes(prog, fs) for c in ast.walk(fold_consts(prog, fs.module, fn_, fs.cls))),
               "FOLLOW(start) contains the end marker", "FOLLOW of the start symbol lacks the end marker", sf,
               site=site_of(prog, fs, fs.node))
     rep.stats.update(eng.stats())
